@@ -60,22 +60,22 @@ const layerBRule = "one evaluation = one simulated run (one synctest bubble) of 
 var checks = []checkDef{
 	{ID: "C05", Engine: "hsrvsim", Level: "exploration", QuickMS: 40000, ThoroughMS: 600000, SelftestRuns: 60,
 		Rule: layerBRule, Assumptions: layerBAssume, RealStub: layerBReal,
-		MustProbe: []string{"fingerprints_checked", "boots_with_cache", "scripts_run", "cache_deleted"}},
+		MustProbe: []string{"fingerprints_checked", "boots_with_cache", "scripts_run", "cache_deleted", "cache_replaced_while_running", "cache_holds_a_chain", "tls_handshakes"}},
 	{ID: "C07", Engine: "hsrvsim", Level: "exploration", QuickMS: 40000, ThoroughMS: 600000, SelftestRuns: 60,
 		Rule: layerBRule, Assumptions: layerBAssume, RealStub: layerBReal,
-		MustProbe: []string{"c2_from_param", "c2_from_header", "c2_from_host", "c2_from_sni", "c2_out_of_ideas", "sni_port_443", "scripts_run", "template_unparsable", "template_missing", "template_exec_error", "template_unreadable"}},
+		MustProbe: []string{"c2_from_param", "c2_from_header", "c2_from_host", "c2_from_sni", "c2_out_of_ideas", "sni_port_443", "scripts_run", "template_unparsable", "template_missing", "template_exec_error", "template_unreadable", "script_bursts", "script_answers_held", "template_same_mtime"}},
 	{ID: "C12", Engine: "hsrvsim", Level: "exploration", QuickMS: 40000, ThoroughMS: 600000, SelftestRuns: 60,
 		Also: []also{{Engine: "procsim", Workers: 2, Why: "the process half of the property, with the binary built by the repository's default toolchain: one-shell family of real processes under a pty (two unidirectional streams, /io, refused and half-attached attempts first, a connection made early that sends its request late or never): new connections refused after the ready notice, exit by itself with status 0 at the next entered line, no fatal error, terminal mode restored"}},
 		Rule: layerBRule, Assumptions: layerBAssume, RealStub: layerBReal,
-		MustProbe: []string{"one_shell_ready", "one_shell_finished", "refused_over_http", "io_sessions", "lines_over_http"}},
+		MustProbe: []string{"one_shell_ready", "one_shell_finished", "one_shell_finished_by_itself", "refused_over_http", "io_sessions", "lines_over_http", "request_on_old_connection_after_listener_closed", "normal_exit_one_shell_straggler", "one_shell_new_connect_refused"}},
 	{ID: "C01", Engine: "brokersim", Level: "exploration", QuickMS: 40000, ThoroughMS: 600000, SelftestRuns: 200,
 		Also: []also{{Engine: "hsrvsim", Workers: 4, Why: "the same property observed through the real net/http server, chunked encoding and TLS (refused attempts end at once and get nothing, lines reach the client at the quiescent point, output displayed byte-exact, peer stream ended)"}},
 		Rule: layerARule, StateMeasure: layerAStates, Assumptions: layerAAssume, RealStub: layerAReal,
-		MustProbe: []string{"attempt_in_teardown_window", "attempt_in_shutdown", "refused_refuse", "teardown_window_entered"}},
+		MustProbe: []string{"attempt_in_teardown_window", "attempt_in_shutdown", "refused_refuse", "teardown_window_entered", "refused_over_http", "refused_upload_keeps_going"}},
 	{ID: "C02", Engine: "brokersim", Level: "exploration", QuickMS: 40000, ThoroughMS: 600000, SelftestRuns: 200,
 		Also: []also{{Engine: "hsrvsim", Workers: 3, Why: "the same property observed through the real net/http server, chunked encoding and TLS (refused attempts end at once and get nothing, lines reach the client at the quiescent point, output displayed byte-exact, peer stream ended)"}, {Engine: "termsim", Workers: 2, Why: "typed lines and Ctrl+I inserts (multi-line payload as exactly one entry) through the real line editor onto the input channel"}},
 		Rule: layerARule, StateMeasure: layerAStates, Assumptions: layerAAssume, RealStub: layerAReal,
-		MustProbe: []string{"lines_delivered", "line_lost_to_own_error", "line_64k", "line_multiline", "write_err", "flush_err", "write_short"}},
+		MustProbe: []string{"lines_delivered", "line_lost_to_own_error", "line_64k", "line_multiline", "write_err", "flush_err", "write_short", "lines_over_http", "conn_reset_with_lines_in_flight", "ctrl_i", "input_channel_drained", "insert_source_err"}},
 	{ID: "C03", Engine: "brokersim", Level: "exploration", QuickMS: 40000, ThoroughMS: 600000, SelftestRuns: 200,
 		Also: []also{{Engine: "hsrvsim", Workers: 4, Why: "the same property observed through the real net/http server, chunked encoding and TLS (refused attempts end at once and get nothing, lines reach the client at the quiescent point, output displayed byte-exact, peer stream ended)"}, {Engine: "termsim", Workers: 2, Why: "shell output on the operator's terminal itself: each chunk written byte for byte in one piece, nothing held back (incomplete UTF-8 tails, control bytes)"}},
 		Rule: layerARule, StateMeasure: layerAStates, Assumptions: layerAAssume, RealStub: layerAReal,
@@ -122,6 +122,7 @@ var checks = []checkDef{
 		RealStub:     map[string]string{"real": "sstls.Listen, GetCertificate, LoadCachedCertificate, SaveCertificate, txtar, crypto/tls (both ends), x509; the file system under the worker's scratch directory", "stub": "transport under TLS (buffered in-memory pipe swapped in under the TLS listener; the real socket is closed unread), clock (synctest), crypto randomness (seeded), crash and corruption states (written by the harness)"},
 		MustProbe:    []string{"crash_prefix", "crash_zerotail", "corrupt_cert", "corrupt_key", "corrupt_header", "crash_dirs", "delete", "regenerated", "harmless_corruption_loaded"}},
 	{ID: "C11", Engine: "brokersim", Level: "exploration", QuickMS: 40000, ThoroughMS: 600000, SelftestRuns: 200,
+		Also: []also{{Engine: "procsim", Workers: 1, Why: "the log file itself, written by the real binary (repository's default toolchain) under a pty: named by -log and by the environment, created with mode 0600, appended to across two sessions and to a file that existed before, every line one JSON object, and the lines a shell session's transcript (operator lines as the implant received them, output as it sent it, one connect and one disconnect per direction, one refusal at error level)"}},
 		Rule: layerARule, StateMeasure: layerAStates, Assumptions: layerAAssume, RealStub: layerAReal,
-		MustProbe: []string{"lines_delivered", "refused_refuse", "refused_silent", "line_arbitrary_bytes"}},
+		MustProbe: []string{"lines_delivered", "refused_refuse", "refused_silent", "line_arbitrary_bytes", "log_appended_to_existing", "log_created_0600", "log_session_reconstructed"}},
 }
